@@ -125,6 +125,24 @@ func evalIP4(c CaseText) Result {
 	if gok2, gstop2, ge2 := sipsp.IP4Prefix(s, nil); gok2 != gok || gstop2 != gstop || ge2 != ge {
 		return viol("IP4Prefix(%s) depends on the destination buffer: (%v,%d,%v) vs (%v,%d,%v)", c.S, gok2, gstop2, ge2, gok, gstop, ge)
 	}
+	// destination buffers of other sizes: what fits is filled (a prefix of the address), nothing beyond 4 bytes is touched
+	if gok {
+		for _, l := range []int{1, 2, 3, 6} {
+			db := []byte{0xaa, 0xaa, 0xaa, 0xaa, 0xaa, 0xaa}[:l]
+			if k2, s2, e2 := sipsp.IP4Prefix(s, db); k2 != gok || s2 != gstop || e2 != ge {
+				return viol("IP4Prefix(%s) with a %d-byte destination: (%v,%d,%v), with 4 bytes (%v,%d,%v)", c.S, l, k2, s2, e2, gok, gstop, ge)
+			}
+			for i := 0; i < l; i++ {
+				want := byte(0xaa)
+				if i < 4 {
+					want = rip[i]
+				}
+				if db[i] != want {
+					return viol("IP4Prefix(%s) with a %d-byte destination wrote %v, the address is %v", c.S, l, db, rip)
+				}
+			}
+		}
+	}
 	// search
 	var d2 [4]byte
 	found, off, ln := sipsp.ContainsIP4(s, d2[:])
